@@ -732,7 +732,8 @@ RULE_ADDENDA = {
            "next to one that continues with NULs) and one template in twelve of those is an 'aimed comparison'; boundary classes: 250-261 <if> levels around "
            "loops with sort / group, attributes quoted by operator characters"
            " ; half of the cases (gen2=2) turn one template in eight into an 'expression soup': 2-5 operands drawn from 64-bit limits, variables of every kind, text and text that starts like a number (2x, 1 0, 1.5.2, 0x1g), between random operators, inside {math:}, an inline if, an <if> or a loop"
-           " ; gen2=2 boundary classes: an unclosed {var: / {raw: inside true= / false= whose body is 256*m + k units long with the attribute's closing quote as its (k+1)-th unit; loop value / set / group names of 255 .. 513 units",
+           " ; gen2=2 boundary classes: an unclosed {var: / {raw: inside true= / false= whose body is 256*m + k units long with the attribute's closing quote as its (k+1)-th unit; loop value / set / group names of 255 .. 513 units"
+           " ; gen2=2 aimed templates also hold four loop sequences (sorted / grouped object loop, deeper loop, sibling loop over unprintable items) over an object of arrays, an array of arrays and records to group",
     "C02": "; one case in three writes phrases and text runs with look-alike units (bytes above 0x7F = U+0100|c in the 2- and 4-byte builds: '{', '}', '<', ':', "
            "digits as low bytes); one deep case in seven nests beyond 255 open tags; one build runs with QENTEM_AUTO_ESCAPE_HTML=0"
            " ; one case in four (alias=2) names the grouping member 'year' and gives objects a member 'pear' (same hash) in any slot, writes words that start like a tag (<iframe ...>, <loops>, <elsewhere>, <ifx>) as text runs and names loop values by the first letters of root members (n, s, i, p, f ... next to num, str, items)"
@@ -740,7 +741,8 @@ RULE_ADDENDA = {
     "C03": "; the parsed form reaches the renderer directly, through a caller-owned tag cache, through a copy-constructed cache or through a cache copy-assigned over "
            "another template's tags (chosen by the template text)"
            " ; an unresolved {var:NAME} and a loop key are also printed as the sub tag of a {svar:} (phrase ({0}) / {0})"
-           " ; in the 2- and 4-byte builds the {svar:} phrase ends with braces around units whose low byte is a digit (U+0130, U+4E31, U+1F630)",
+           " ; in the 2- and 4-byte builds the {svar:} phrase ends with braces around units whose low byte is a digit (U+0130, U+4E31, U+1F630)"
+           " ; an unresolved subscript of an array loop's value ({var:v[NAME]}) is echoed, escaped",
     "C04": "; one case in forty nests parentheses 254..1000 deep (left-nested, right-nested, redundant pairs, alternating)"
            " ; two cases in three (gen2=1) also draw decimals a hair away from a whole number (3.0000000000001, 1.9999999999999, 3.0000000000000004 ...) as literals and exponents",
     "C06": "; enumerated: strings of 255 .. 1,048,577 units with an escape at the start / middle / end / nowhere, as array element, member value and member key, "
@@ -762,7 +764,8 @@ RULE_ADDENDA = {
     "C15": "; every string pair is also compared widened to 2- and 4-byte units, stretched to 16-80 units by a common prefix / suffix, and (when one is a prefix of the "
            "other) as views of one buffer"
            " ; enumerated 'big-sorts': 1025..5000 items in six shapes (random, sorted, reversed, equal, few distinct, organ pipe) in Array<unsigned>, a Value array and the keys of a hash array, both directions, and 20000 sorted / reversed / equal items on a thread with a 512 KiB stack"
-           " ; the value universe ends with -0.0, the smallest subnormals of both signs, 2^63 as a double and a pointer to -0.0",
+           " ; the value universe ends with -0.0, the smallest subnormals of both signs, 2^63 as a double and a pointer to -0.0"
+           " ; and with objects / arrays that hold a removed member (and a pointer to one)",
     "C16": "; two cases in three may start with a nest of 9-13 loops over a two-element array"
            " ; the group-by harness (C18) runs here too: the grouping is read again after its source has been overwritten and released",
     "C17": "; one case in three holds containers behind pointer values, one in three gives the root object 24 more members (tables above 16 items); for those only purity "
@@ -774,7 +777,8 @@ RULE_ADDENDA = {
            " ; twins=3: the grouping member is 't' and a sibling is 'ti' (the key plus one unit, same hash)",
     "C20": "; one generated case in eighty and a thin slice of the enumeration put 4,000-66,000 units in front of the escape"
            " ; one generated case in five and one enumerated scalar in thirteen put the escape into a run of 2-9 adjacent escapes (D000-D7FF next to surrogate pairs, astral, E000.., ASCII)"
-           " ; one generated case in ten and one enumerated scalar in 101 map the document a multiple of 2^32 units (minus a few) away from the caller's scratch stream, which has to grow for the run behind the escape (plain build: the address is free there)",
+           " ; one generated case in ten and one enumerated scalar in 101 map the document a multiple of 2^32 units (minus a few) away from the caller's scratch stream, which has to grow for the run behind the escape (plain build: the address is free there)"
+           " ; six scalars are also decoded at the end of a 5 M unit string that follows a 0.3 M unit string with an escape (3 widths)",
 }
 for _pid, _t in RULE_ADDENDA.items():
     SPECS[_pid]["rule"] += _t
